@@ -1191,6 +1191,8 @@ _MAXIMAL_OCTET = b"\xff"
 _MAXIMAL_OCTET_VALUE = ord(_MAXIMAL_OCTET)
 _AT_SIGN_VALUE = ord("@")
 _LEFT_SQUARE_BRACKET_VALUE = ord("[")
+_UPPER_Z_VALUE = ord("Z")
+_LEFT_CURLY_BRACKET_VALUE = ord("{")
 
 
 def _wire_length(labels):
@@ -1299,8 +1301,12 @@ def _absolute_successor(name: Name, origin: Name, prefix_ok: bool) -> Name:
             # lower-case equivalents. If we increment "@" to "A", then it would compare
             # as "a", which is after "[", "\", "]", "^", "_", and "`", so we would have
             # skipped the most minimal successor, namely "[".
+            # Likewise "Z" compares as "z", so its successor is "{" and not "[",
+            # which would sort before it.
             if octet == _AT_SIGN_VALUE:
                 octet = _LEFT_SQUARE_BRACKET_VALUE
+            elif octet == _UPPER_Z_VALUE:
+                octet = _LEFT_CURLY_BRACKET_VALUE
             else:
                 octet += 1
             octets[i] = octet
